@@ -12,9 +12,10 @@ from dunit import Hang, _alarm, build_opt
 class ArgLogConstraint:
     """A constraint given as a set of feasible positions; logs every parameter dict it receives."""
 
-    def __init__(self, space, feasible):
+    def __init__(self, space, feasible, pred=None):
         self.space, self.names = space, list(space.keys())
         self.feasible_values = {tuple(float(space[n][i]) for n, i in zip(self.names, p)) for p in feasible}
+        self.pred = pred          # (coefficients, bound): the constraint is sum(c_i * x_i) > bound on the VALUES (also off the grid)
         self.log = []
 
     def __call__(self, para):
@@ -23,6 +24,8 @@ class ArgLogConstraint:
             key = tuple(float(para[n]) for n in self.names)
         except Exception:
             return False
+        if self.pred is not None:
+            return sum(c * x for c, x in zip(self.pred[0], key)) > self.pred[1]
         return key in self.feasible_values
 
 
@@ -260,7 +263,7 @@ def run_steps(spec, rnglog=False, per_step_s=20, keep_valid=False):
     cons = None
     conlist = None
     if spec.get("feasible") is not None:
-        cons = ArgLogConstraint(space, spec["feasible"])
+        cons = ArgLogConstraint(space, spec["feasible"], spec.get("pred"))
         conlist = [cons]
     random.seed(spec.get("ambient", 12345))
     np.random.seed(spec.get("ambient", 12345))
@@ -321,6 +324,13 @@ def run_steps(spec, rnglog=False, per_step_s=20, keep_valid=False):
                               states={nm: snapshot(o) for nm, o in sub_optimizers(opt)},
                               rng=(rl.log[r0:] if rl else None),
                               rng_split=((eval_marks[-1] - r0) if (rl and len(eval_marks) > e0) else None))
+                    ps = getattr(opt, "pop_sorted", None)
+                    subs_ = list(getattr(opt, "optimizers", None) or [])
+                    if ps is not None and subs_:
+                        try:
+                            st["pop_sorted"] = [next(i for i, x in enumerate(subs_) if x is y) for y in ps]
+                        except StopIteration:
+                            st["pop_sorted"] = None
                     if not keep_valid:
                         for s in st["states"].values():
                             s.pop("valid")
